@@ -28,7 +28,7 @@ fn meta() -> Meta {
     Meta {
         id: "C17",
         level: "exploration",
-        rule: "(a) every specification with <= 3 module names from {a, a::b, a::bc, a-b (a dash is part of the name, not an underscore), B (upper case: module names are case-sensitive), error, info} x 6 filters x optional default, built by LogSpecBuilder and by parse, round-tripped through Display, TOML and (<=1 name) the specfile; (b) every string of <= L tokens over {a, a::b, info, OFF, Warn, 5, bogus, =, ',', /, ' ', x(, e-acute, tab} plus single special code points in three contexts, against a reference parser; distinct_nontrivial = distinct inputs that are either malformed or contain at least two well-formed parts; round trips also with text filters (whatever Display produces parses back); case-mapping look-alikes of level words among the special inputs; lists of 12 / 40 / 400 malformed parts with well-formed parts before, between and after them; one specification with 1500 module filters through every round trip",
+        rule: "(a) every specification with <= 3 module names from {a, a::b, a::bc, a-b (a dash is part of the name, not an underscore), B (upper case: module names are case-sensitive), error, info} x 6 filters x optional default, built by LogSpecBuilder and by parse, round-tripped through Display, TOML and (<=1 name) the specfile; (b) every string of <= L tokens over {a, a::b, info, OFF, Warn, 5, bogus, =, ',', /, ' ', x(, e-acute, tab} plus single special code points in three contexts, against a reference parser (a text filter installed is exactly the text between the slashes); distinct_nontrivial = distinct inputs that are either malformed or contain at least two well-formed parts; round trips also with text filters (whatever Display produces parses back); case-mapping look-alikes of level words among the special inputs; lists of 12 / 40 / 400 malformed parts with well-formed parts before, between and after them; one specification with 1500 module filters through every round trip",
         assumptions: vec![
             "inputs with an empty module name or naming a module/default twice are only checked for no-panic and Ok/Err stability (outside the quantifier)".into(),
             "regex validity is decided by the regex crate".into(),
@@ -228,6 +228,12 @@ fn check_parse(input: &str) -> Result<(bool, bool), (String, String, String)> {
                         token_class(input),
                         format!("parse({input:?}): regex installed = {}, given = {}", spec.text_filter().is_some(), r.regex_given_and_valid),
                     ));
+                }
+                // the filter is the text between the slashes, blanks included
+                if let (Some(installed), Some(given)) = (spec.text_filter(), input.split('/').nth(1)) {
+                    if installed.as_str() != given {
+                        return Err(("regex-text".into(), token_class(input), format!("parse({input:?}): the text filter installed is {:?}, the text given is {given:?}", installed.as_str())));
+                    }
                 }
             }
         }
